@@ -47,6 +47,15 @@ fn compare_op(op: ast::CompareOpKind) -> CompareOp {
     }
 }
 
+/// The kind of run-time state an open scope holds.
+#[cfg(feature = "loop_controls")]
+#[derive(Copy, Clone)]
+enum ScopeKind {
+    With,
+    Capture,
+    AutoEscape,
+}
+
 /// Represents an open block of code that does not yet have updated
 /// jump targets.
 enum PendingBlock {
@@ -57,6 +66,10 @@ enum PendingBlock {
         iter_instr: u32,
         jump_instrs: Vec<u32>,
     },
+    /// A construct between a `break`/`continue` and its loop that holds
+    /// run-time state which has to be released when the loop is left early.
+    #[cfg(feature = "loop_controls")]
+    Scope(ScopeKind),
     ScBool {
         jump_instrs: Vec<u32>,
     },
@@ -244,6 +257,44 @@ impl<'source> CodeGenerator<'source> {
         }
     }
 
+    /// Marks the start of a construct that `break`/`continue` have to unwind.
+    #[cfg(feature = "loop_controls")]
+    fn start_scope(&mut self, kind: ScopeKind) {
+        self.pending_block.push(PendingBlock::Scope(kind));
+    }
+
+    /// Marks the end of a construct opened with `start_scope`.
+    #[cfg(feature = "loop_controls")]
+    fn end_scope(&mut self) {
+        match self.pending_block.pop() {
+            Some(PendingBlock::Scope(_)) => {}
+            _ => unreachable!(),
+        }
+    }
+
+    /// Releases the state of all scopes between here and the innermost loop.
+    #[cfg(feature = "loop_controls")]
+    fn unwind_scopes_to_loop(&mut self) {
+        let mut cleanup = Vec::new();
+        for pending_block in self.pending_block.iter().rev() {
+            match pending_block {
+                PendingBlock::Loop { .. } => break,
+                PendingBlock::Scope(ScopeKind::With) => cleanup.push(Instruction::PopFrame),
+                PendingBlock::Scope(ScopeKind::Capture) => {
+                    cleanup.push(Instruction::EndCapture);
+                    cleanup.push(Instruction::DiscardTop);
+                }
+                PendingBlock::Scope(ScopeKind::AutoEscape) => {
+                    cleanup.push(Instruction::PopAutoEscape)
+                }
+                _ => {}
+            }
+        }
+        for instr in cleanup {
+            self.add(instr);
+        }
+    }
+
     /// Begins an if conditional
     pub fn start_if(&mut self) {
         let jump_instr = self.add(Instruction::JumpIfFalse(!0));
@@ -346,9 +397,13 @@ impl<'source> CodeGenerator<'source> {
                     self.compile_expr(expr);
                     self.compile_assignment(target);
                 }
+                #[cfg(feature = "loop_controls")]
+                self.start_scope(ScopeKind::With);
                 for node in &with_block.body {
                     self.compile_stmt(node);
                 }
+                #[cfg(feature = "loop_controls")]
+                self.end_scope();
                 self.add(Instruction::PopFrame);
             }
             ast::Stmt::Set(set) => {
@@ -359,9 +414,13 @@ impl<'source> CodeGenerator<'source> {
             ast::Stmt::SetBlock(set_block) => {
                 self.set_line_from_span(set_block.span());
                 self.add(Instruction::BeginCapture(CaptureMode::Capture));
+                #[cfg(feature = "loop_controls")]
+                self.start_scope(ScopeKind::Capture);
                 for node in &set_block.body {
                     self.compile_stmt(node);
                 }
+                #[cfg(feature = "loop_controls")]
+                self.end_scope();
                 self.add(Instruction::EndCapture);
                 if let Some(ref filter) = set_block.filter {
                     self.compile_expr(filter);
@@ -372,17 +431,25 @@ impl<'source> CodeGenerator<'source> {
                 self.set_line_from_span(auto_escape.span());
                 self.compile_expr(&auto_escape.enabled);
                 self.add(Instruction::PushAutoEscape);
+                #[cfg(feature = "loop_controls")]
+                self.start_scope(ScopeKind::AutoEscape);
                 for node in &auto_escape.body {
                     self.compile_stmt(node);
                 }
+                #[cfg(feature = "loop_controls")]
+                self.end_scope();
                 self.add(Instruction::PopAutoEscape);
             }
             ast::Stmt::FilterBlock(filter_block) => {
                 self.set_line_from_span(filter_block.span());
                 self.add(Instruction::BeginCapture(CaptureMode::Capture));
+                #[cfg(feature = "loop_controls")]
+                self.start_scope(ScopeKind::Capture);
                 for node in &filter_block.body {
                     self.compile_stmt(node);
                 }
+                #[cfg(feature = "loop_controls")]
+                self.end_scope();
                 self.add(Instruction::EndCapture);
                 self.compile_expr(&filter_block.filter);
                 self.add(Instruction::Emit);
@@ -440,6 +507,7 @@ impl<'source> CodeGenerator<'source> {
             #[cfg(feature = "loop_controls")]
             ast::Stmt::Continue(cont) => {
                 self.set_line_from_span(cont.span());
+                self.unwind_scopes_to_loop();
                 for pending_block in self.pending_block.iter().rev() {
                     if let PendingBlock::Loop { iter_instr, .. } = pending_block {
                         self.add(Instruction::Jump(*iter_instr));
@@ -450,6 +518,7 @@ impl<'source> CodeGenerator<'source> {
             #[cfg(feature = "loop_controls")]
             ast::Stmt::Break(brk) => {
                 self.set_line_from_span(brk.span());
+                self.unwind_scopes_to_loop();
                 let instr = self.add(Instruction::Jump(0));
                 for pending_block in self.pending_block.iter_mut().rev() {
                     if let &mut PendingBlock::Loop {
